@@ -541,6 +541,6 @@ def WF (m : AbstractModel) : Bool :=
       2 * m.submeshBoneMap.length < 4294967296
    else m.boneTablesV2.length < 65536 && m.boneTablesV2.all boneTableV2Ok &&
       2 * m.submeshBoneMap.length < 65536) &&
-  (encodeMdl m).length < 4294967296
+  (stringTable m).length < 4294967296 && (encodeMdl m).length < 4294967296
 
 end Physis.Spec.Mdl
